@@ -304,6 +304,10 @@ def run_case(base, c, sh):
             if not tomlw.same(got_plan, want_plan):
                 sh.violation("plan", "%s: buildpack plan in the context %r, file has %r" % (what, got_plan, want_plan), case)
                 return
+            typed = [{"name": e["name"], "metadata": tomlw.untagged(e["metadata"]) if "metadata" in e else "<error: %s>" % e.get("error")} for e in got.get("plan_typed", [])]
+            if not tomlw.same(typed, want_plan):
+                sh.violation("plan:typed-accessor", "%s: Entry::metadata::<map>() gives %r, the plan file has %r" % (what, typed, want_plan), case)
+                return
             want_store = {"absent": None, "valid": tomlw.to_py(c["store_md"]), "valid-empty": {}}[c["store"]]
             got_store = None if got["store"] is None else tomlw.untagged(got["store"])
             if (got_store is None) != (want_store is None) or (want_store is not None and not tomlw.same(got_store, want_store)):
